@@ -46,7 +46,7 @@ func semanticFamiliesFor(c *core.Ctx, backend string) []*SemCase {
 	gs = append(gs, gen.PtrArg()...)
 	// random structured programs (own generator state, so that the table families above do not depend on their number)
 	if randFamilyOn(backend) {
-		gs = append(gs, gen.RandProgramsFor(rand.New(rand.NewSource(c.Seed*7919+13)), c.Pick(60, 1200), c.Pick(6, 10), backend == "glsl")...)
+		gs = append(gs, gen.RandProgramsFor(rand.New(rand.NewSource(c.Seed*7919+13)), c.Pick(60, 300), c.Pick(6, 8), backend == "glsl")...)
 	}
 	var out []*SemCase
 	for _, g := range gs {
